@@ -52,7 +52,7 @@ class Check(HCheck):
             Space(Cfg("domain"), ops, d, roots=[al.R0, al.R1, al.R2], name="links/domain"),
         ]
         ll = al.long_lrus((75, 149, 74, 222))
-        lops = [al.links((ll[0], ll[1])), al.links((ll[1], ll[0]), (ll[1], ll[1])), al.crawl((ll[2], (ll[0], ll[2]))), al.links((A, ll[1]), (ll[0], A)), al.page(ll[1], True), al.links((ll[3], ll[0]), (Ax, ll[3])), al.page(ll[3] + b"p:k|")]
+        lops = [al.links((ll[0], ll[1])), al.links((ll[1], ll[0]), (ll[1], ll[1])), al.crawl((ll[2], (ll[0], ll[2]))), al.links((A, ll[1]), (ll[0], A)), al.page(ll[1], True), al.links((ll[3], ll[0]), (Ax, ll[3])), al.page(ll[3] + b"p:k|"), al.links((ll[1] + b"p:c|q:d|", Ax), (ll[0], ll[1] + b"p:c|q:d|"), (ll[1] + b"p:c|q:d|", ll[1] + b"p:c|q:d|"))]
         sp.append(Space(Cfg("never"), lops, 5 if thorough else 4, name="links/long"))
         # exhaustive small batch shapes, depth 1 (thorough 2 for link batches) from prepared states
         P3 = [Ax, Axy, Ab]
